@@ -2168,6 +2168,29 @@ impl Interpreter {
         Err(JsError::reference_error(name.to_string()))
     }
 
+    /// Get a variable from the innermost environment only (plus, in the body of a namespace,
+    /// the own properties of the namespace object); `None` when it is not bound there
+    pub fn env_get_local(&self, name: &JsString) -> Option<JsValue> {
+        let env_ref = self.env.borrow();
+        let data = env_ref.as_environment()?;
+        if let Some(binding) = data.bindings.get(&VarKey(name.cheap_clone())) {
+            if !binding.initialized {
+                return None;
+            }
+            if let Some(ref import_binding) = binding.import_binding {
+                return self.resolve_import_binding(import_binding).ok();
+            }
+            return Some(binding.value.clone());
+        }
+        let ns = data.namespace_object.as_ref()?;
+        let ns_ref = ns.borrow();
+        let prop = ns_ref.get_own_property(&PropertyKey::String(name.cheap_clone()))?;
+        if prop.is_accessor() {
+            return None;
+        }
+        Some(prop.value.clone())
+    }
+
     /// Resolve an import binding by reading from the module's environment
     /// This handles both direct exports (ModuleExportGetter) and re-exports (ModuleReExportGetter)
     fn resolve_import_binding(&self, import_binding: &ImportBinding) -> Result<JsValue, JsError> {
